@@ -193,8 +193,11 @@ pub fn gen(tier: Tier, rng: &mut Rng64, out: &mut Out) {
             run("C14.tok", &[enc(&render(&ids))], out);
         }
     }
-    // --- longer ones in batches of 14^3 completions per line: length 5 (quick), 5..7 (thorough)
+    // --- longer ones in batches of 14^3 completions per line: length 5 (quick), 5..7 (thorough).
+    // Lengths 6 and 7 are interleaved with the random stream below so that the heavy lines are spread
+    // evenly over the shards of the driver.
     let max_len = if thorough { 7 } else { 5 };
+    let mut pending: Vec<String> = vec![];
     for len in 5..=max_len {
         let plen = len - 3;
         let total = 14usize.pow(plen);
@@ -202,9 +205,10 @@ pub fn gen(tier: Tier, rng: &mut Rng64, out: &mut Out) {
             let mut ids = vec![];
             let mut div = total / 14;
             for _ in 0..plen { ids.push((j / div.max(1)) % 14); div /= 14; }
-            run("C14.tokb", &[ids_field(&ids), s("3")], out);
+            if len == 5 { run("C14.tokb", &[ids_field(&ids), s("3")], out); } else { pending.push(ids_field(&ids)); }
         }
     }
+    pending.reverse();
     // --- all character strings up to length 4 (quick) / 5 (thorough) over a tokenizer-level alphabet
     let chars: [char; 11] = ['a', ' ', '<', '=', '>', '(', ')', '!', '?', ':', '&'];
     let cmax = if thorough { 5 } else { 4 };
@@ -237,6 +241,7 @@ pub fn gen(tier: Tier, rng: &mut Rng64, out: &mut Out) {
     // --- random trees to depth 8 over parser-safe names; and the same trees printed loosely, then mutated
     let rounds = if thorough { 150000 } else { 6000 };
     for i in 0..rounds {
+        if i % 3 == 0 { if let Some(p) = pending.pop() { run("C14.tokb", &[p, s("3")], out); } }
         let depth = 1 + (i % 8) as usize;
         let e = random_tree(rng, depth, &SAFE_NAMES);
         run("C14.rt", &[sexp(&e)], out);
@@ -267,6 +272,7 @@ pub fn gen(tier: Tier, rng: &mut Rng64, out: &mut Out) {
             run("C14.rtu", &[sexp(&e3)], out);
         }
     }
+    while let Some(p) = pending.pop() { run("C14.tokb", &[p, s("3")], out); }
     // --- deep nesting (<= 50 levels)
     for depth in [10usize, 25, 50] {
         for inner in ["a", "a & b", "a ? b : c", "", "!a"] {
